@@ -357,6 +357,20 @@ FEATURES = [
     ('mixed-syntax-as-string', 'a %(x)s <dtml-var x> %(y)s b',
      [lambda: dict(x=1, y=2), lambda: dict(x='<', y='>'),
       lambda: dict(x=None, y='')], {'cls': 'String'}),
+    # construction-time data: keyword defaults (also with underscore names),
+    # a defaults mapping (underscore keys are not taken), values set through
+    # var() -- all of it is part of what a copy / restored object renders
+    ('ctor-defaults', '<dtml-var _lead>x<dtml-var tv missing="-">'
+                      '<dtml-var m1>&dtml-k1;<dtml-var _h missing="-">'
+                      '<dtml-var y missing="-">',
+     [lambda: dict(y=1), lambda: dict(m1='call'), lambda: dict()],
+     {'_lead': '[', 'k1': 'K', 'mapping': {'m1': 'M', '_h': 'H'},
+      'tvars': {'tv': 'TV', '_tv': 'U'}}),
+    ('ctor-defaults-string', '%(_lead)s%(tv missing="-")s%(m1)s'
+                             '%(y missing="-")s',
+     [lambda: dict(y=1), lambda: dict(m1='call'), lambda: dict()],
+     {'cls': 'String', '_lead': '[', 'mapping': {'m1': 'M'},
+      'tvars': {'tv': 'TV'}}),
     ('broken-source', 'a<dtml-if x>never closed <dtml-var x>',
      [lambda: dict(x=1), lambda: dict(x=0), lambda: dict()]),
     ('broken-expr', 'a<dtml-var "x +">b',
